@@ -199,6 +199,8 @@ type pingKind struct {
 	hop bool
 	// sender is the peer that produced (and delivers) the ping: "" = X, "Y", "Z".
 	sender string
+	// late marks the variant that is delivered long after it was produced (no vacuity demand).
+	late bool
 }
 
 func one(frames [][]byte) []byte {
@@ -324,7 +326,7 @@ func flip(raw []byte, byteIdx, bit int) []byte {
 func TestC07(t *testing.T) {
 	env := kit.GetEnv()
 	rep := kit.NewReport("C07", env)
-	rep.Rule = "per ping kind (hello req/resp, pong req/resp, error codes 0-4 + unknown, disconnect going-down/list, announce with 0 and 1 hop), produced by the real sender code of peer X in a fresh 6-router world: (a) every single-bit flip of every authenticated header byte (all except TTL/flow), the length fields and the signature/MAC, and one bit per body byte (thorough: all bits), each alone and on a copy that follows the genuine ping; (b) source rewritten to each other known identity, destination rewritten; (c) same ping re-built and sealed by another router claiming X's address; (c2) a relayed announcement whose delivering peer forges an inner hop record of a router the receiver already knows, with its own key embedded; (d) first-contact variants with header key right / wrong / for another address, the forged ones repeated three times (again as a hello and as the original kind); (e) replay of the exact frame after {nothing, a newer valid ping from X, a ping from Y, +31 s, 61 min of idle time + the session cleaner, a newer valid ping of each of the other kinds from X; for the encrypted kinds: a newer opposite verdict whose sequence number jumped by {1,2,63,64,65,66,128}}; (f) the valid ping itself with its type-specific effect bound; snapshot = table + sessions(keys, MTU) + stored info/offline flags + connection verdicts; non-trivial = mutation hits an authenticated byte or the case must be rejected; states = distinct snapshots observed"
+	rep.Rule = "per ping kind (hello req/resp, pong req/resp, error codes 0-4 + unknown, disconnect going-down/list, announce with 0 and 1 hop), produced by the real sender code of peer X in a fresh 6-router world: (a) every single-bit flip of every authenticated header byte (all except TTL/flow), the length fields and the signature/MAC, and one bit per body byte (thorough: all bits), each alone and on a copy that follows the genuine ping; (b) source rewritten to each other known identity, destination rewritten; (c) same ping re-built and sealed by another router claiming X's address; (c2) a relayed announcement whose delivering peer forges an inner hop record of a router the receiver already knows, with its own key embedded; (d) first-contact variants with header key right / wrong / for another address, the forged ones repeated three times (again as a hello and as the original kind); (e) replay of the exact frame after {nothing, a newer valid ping from X, a ping from Y, +31 s, 61 min of idle time + the session cleaner, a newer valid ping of each of the other kinds from X; for the encrypted kinds: a newer opposite verdict whose sequence number jumped by {1,2,63,64,65,66,128}}; (f) the valid ping itself with its type-specific effect bound (a disconnect must remove every route containing its sender), also after eight days without storage access and a run of the receiver's storage pruning (sessions live on, stored entries are gone); snapshot = table + sessions(keys, MTU) + stored info/offline flags + connection verdicts; non-trivial = mutation hits an authenticated byte or the case must be rejected; states = distinct snapshots observed"
 	rep.Assumptions = []string{
 		"state is observed through exported accessors plus the VerifEntries hook; pending-ping bookkeeping (active hello/pong ids, error rate limiter) is not part of the statement's state list",
 		"disconnect pings are addressed to the router itself: as emitted by the real sender (unicast type to the multicast address) they are never dispatched to the disconnect handler at all",
@@ -397,6 +399,19 @@ func TestC07(t *testing.T) {
 			o := run(k, nil, nil)
 			checkValid(rep, k, o)
 			rep.Sample(map[string]any{"kind": k.name, "valid_ping_changed": o.changed})
+		}
+		// (f2) the same after the receiver's storage pruning dropped the stored router entries
+		// (sessions live on): same effect bound, same obligations.
+		if mine() {
+			o := run(k, nil, func(tw *tworld, raw []byte) {
+				// entries last read and updated more than a week ago are pruned once the
+				// storage is over its size limit; sessions do not touch the storage while they live.
+				time.Sleep(8 * 24 * time.Hour)
+				tw.r.Store.Prune(0)
+			})
+			k2 := k
+			k2.late = true
+			checkValid(rep, k2, o)
 		}
 		// discover the layout once.
 		var sample []byte
@@ -833,7 +848,7 @@ func checkValid(rep *kit.Report, k pingKind, o struct {
 			rep.Violate(k.name+"/valid/no-effect", "valid disconnect from X removed nothing (vacuous)", nil)
 		}
 	}
-	if k.name == "hello-request" && len(o.changed) == 0 {
+	if k.name == "hello-request" && len(o.changed) == 0 && !k.late {
 		rep.Violate("hello-request/valid/no-effect", "valid hello request did not re-key the session (vacuous)", nil)
 	}
 	rep.Outcome("valid:" + k.name + ":" + strings.Join(o.changed, ","))
